@@ -828,14 +828,18 @@ func cborGenCaps(repo string) (string, error) {
 	}
 	dir := filepath.Join(gopath, "github.com", "whyrusleeping", "cbor-gen@"+ver)
 	fset := token.NewFileSet()
-	f, err := parser.ParseFile(fset, filepath.Join(dir, "utils.go"), nil, parser.SkipObjectResolution)
-	if err != nil {
-		return "", err
-	}
 	env := map[string]constant.Value{}
 	var b strings.Builder
 	b.WriteString("(* cbor-gen " + ver + " *)\n")
-	for _, d := range f.Decls {
+	var decls []ast.Decl
+	for _, fn := range []string{"gen.go", "utils.go"} {
+		f, err := parser.ParseFile(fset, filepath.Join(dir, fn), nil, parser.SkipObjectResolution)
+		if err != nil {
+			return "", err
+		}
+		decls = append(decls, f.Decls...)
+	}
+	for _, d := range decls {
 		gd, ok := d.(*ast.GenDecl)
 		if !ok {
 			continue
@@ -899,7 +903,9 @@ func genWrites(repo, name, dir, file string) (string, error) {
 						}
 						if c, ok := x.Rhs[i].(*ast.CallExpr); ok {
 							if fn, ok := c.Fun.(*ast.Ident); ok && fn.Name == "make" && len(c.Args) > 0 {
-								if _, ok := c.Args[0].(*ast.MapType); ok && x.Tok == token.DEFINE {
+								_, isMap := c.Args[0].(*ast.MapType)
+								at, isArr := c.Args[0].(*ast.ArrayType)
+								if (isMap || (isArr && at.Len == nil)) && x.Tok == token.DEFINE {
 									fresh[id.Name] = true
 								}
 							}
@@ -909,14 +915,11 @@ func genWrites(repo, name, dir, file string) (string, error) {
 			case *ast.CallExpr:
 				if se, ok := x.Fun.(*ast.SelectorExpr); ok && (se.Sel.Name == "Store" || se.Sel.Name == "Swap" || se.Sel.Name == "CompareAndSwap") {
 					for _, a := range x.Args {
-						ast.Inspect(a, func(m ast.Node) bool {
-							if id, ok := m.(*ast.Ident); ok {
-								if _, seen := published[id.Name]; !seen {
-									published[id.Name] = x.Pos()
-								}
+						for _, name := range publishedRoots(a) {
+							if _, seen := published[name]; !seen {
+								published[name] = x.Pos()
 							}
-							return true
-						})
+						}
 					}
 				}
 			}
@@ -958,6 +961,43 @@ func genWrites(repo, name, dir, file string) (string, error) {
 	b.WriteString("].\n")
 	_ = strconv.Itoa
 	return b.String(), nil
+}
+
+// publishedRoots lists the values an atomic Store/Swap/CompareAndSwap argument makes
+// reachable: identifiers and selector expressions (rendered like rootIdent does),
+// looking through &T{k: v} literals at the VALUES only.
+func publishedRoots(e ast.Expr) []string {
+	var out []string
+	var walk func(n ast.Expr)
+	walk = func(n ast.Expr) {
+		switch x := n.(type) {
+		case nil:
+		case *ast.Ident:
+			out = append(out, x.Name)
+		case *ast.SelectorExpr:
+			out = append(out, exprStr(x))
+		case *ast.UnaryExpr:
+			walk(x.X)
+		case *ast.StarExpr:
+			walk(x.X)
+		case *ast.ParenExpr:
+			walk(x.X)
+		case *ast.CompositeLit:
+			for _, el := range x.Elts {
+				walk(el)
+			}
+		case *ast.KeyValueExpr:
+			walk(x.Value)
+		case *ast.CallExpr:
+			for _, a := range x.Args {
+				walk(a)
+			}
+		case *ast.IndexExpr:
+			walk(x.X)
+		}
+	}
+	walk(e)
+	return out
 }
 
 func rootIdent(e ast.Expr) string {
